@@ -26,12 +26,19 @@ import (
 var testMode bool
 
 // Raft implements raft node.
+// disconnect tells the state loop that a connection accepted from nid ended.
+type disconnect struct {
+	nid  uint64
+	conn *conn
+}
+
 type Raft struct {
 	rtime randTime
 	timer *safeTimer
 
 	rpcCh        chan *rpc
-	disconnected chan uint64 // nid
+	disconnected chan disconnect
+	leaderConn   *conn // connection that carried the leader's latest replication request
 
 	fsm           *stateMachine
 	fsmRestoredCh chan error // fsm reports any errors during restore on this channel
@@ -105,7 +112,7 @@ func New(opt Options, fsm FSM, storageDir string) (*Raft, error) {
 		rtime:            newRandTime(),
 		timer:            newSafeTimer(),
 		rpcCh:            make(chan *rpc),
-		disconnected:     make(chan uint64, 20),
+		disconnected:     make(chan disconnect, 20),
 		fsm:              sm,
 		fsmRestoredCh:    make(chan error, 5),
 		snapTimer:        newSafeTimer(),
@@ -307,8 +314,11 @@ func (r *Raft) stateLoop() {
 					f.resetTimer()
 				}
 
-			case nid := <-r.disconnected:
-				if r.leader != 0 && nid != 0 && r.leader == nid {
+			case d := <-r.disconnected:
+				// the leader also dials for single requests (timeoutNow, votes of its
+				// candidacy) and redials for replication: a connection of its that
+				// ends while it replicates over another one means nothing
+				if r.leader != 0 && d.nid != 0 && r.leader == d.nid && (r.leaderConn == nil || r.leaderConn == d.conn) {
 					if trace {
 						println(r, "leader got disconnected")
 					}
@@ -469,6 +479,7 @@ func (r *Raft) setLeader(id uint64) {
 			println(r, "leader:", id)
 		}
 		r.leader = id
+		r.leaderConn = nil
 		if r.leader == 0 {
 			r.logger.Info("no known leader")
 		} else if r.leader == r.nid {
